@@ -197,6 +197,52 @@ def case_bytes(params):
     return _judge_bytes(bytes(params["data"]), TLV, TlvParseException, "string")
 
 
+BYTE_FILTERS = [[1], [7], [1, 7], [0, 255], []]
+
+
+def case_bytes_filter(params):
+    """Arbitrary bytes through the filtered decoder.  Reference: the TLV8 items of the well-formed prefix, equal-typed neighbours joined, then
+    the expected types picked.  Well-formed input: exactly that.  Input cut off inside an item: the codec's parse error when the cut-off item
+    is of an expected type (an item the caller asked for must not vanish silently); for a cut-off item of another type either the parse error
+    or the picked items of the well-formed prefix.  An empty collection of expected types filters nothing (same answer as no filter)."""
+    TLV, TlvParseException = _tlv()
+    data = bytes(params["data"])
+    raw, ok = ref.parse_raw(data)
+    out = []
+    for expected in BYTE_FILTERS:
+        try:
+            got, exc = _norm(TLV.decode_bytes(data, expected=list(expected))), None
+        except TlvParseException:
+            got, exc = None, "TlvParseException"
+        except Exception as e:  # noqa: BLE001
+            out.append((f"bytes-filter:foreign-exception:{type(e).__name__}", {"data": data, "expected": expected}))
+            continue
+        det = {"data": data, "expected": expected, "got": got, "raised": exc}
+        if not expected:
+            try:
+                plain, pexc = _norm(TLV.decode_bytes(data)), None
+            except TlvParseException:
+                plain, pexc = None, "TlvParseException"
+            if (got, exc) != (plain, pexc):
+                out.append(("bytes-filter:empty-expected-collection-differs-from-no-filter", dict(det, plain=plain)))
+            continue
+        want = [(t, v) for t, v in ref.merge(raw) if t in expected]
+        if ok:
+            if exc:
+                out.append(("bytes-filter:wellformed-rejected", det))
+            elif got != want:
+                out.append(("bytes-filter:wellformed-differs", dict(det, want=want)))
+            continue
+        cut = sum(2 + len(v) for _, v in raw)
+        t_cut = data[cut]
+        if t_cut in expected:
+            if exc is None:
+                out.append(("bytes-filter:cut-off-item-of-an-expected-type-silently-dropped", dict(det, cut_type=t_cut)))
+        elif exc is None and got != want:
+            out.append(("bytes-filter:truncated-input-yields-short-or-wrong-value", dict(det, want=want)))
+    return out
+
+
 def case_mutate(params):
     TLV, TlvParseException = _tlv()
     spec = [tuple(x) for x in params["spec"]]
@@ -322,6 +368,7 @@ CASES = {
     "roundtrip": case_roundtrip,
     "filter": case_filter,
     "bytes": case_bytes,
+    "bytes_filter": case_bytes_filter,
     "mutate": case_mutate,
     "blefrag": case_blefrag,
 }
@@ -369,6 +416,8 @@ def run(ctx):
     fspecs = [[k] for k in kinds if k[1] in (0, 1, 255, 256)] + [
         [a, b] for a in kinds for b in kinds if a[1] in (1, 256) and b[1] in (1, 255, 511)
     ]
+    # equal-typed items with an item of another type between them (a filtered-out item in the middle must still keep its neighbours apart)
+    fspecs += [[a, b, c] for a in kinds for b in kinds for c in kinds if a[0] == c[0] != b[0] and a[1] in (1, 255) and b[1] in (0, 1) and c[1] in (1, 2)]
     if not quick:
         fspecs += [[a, b, c] for a in kinds for b in kinds for c in kinds if a[1] == 1 and b[1] in (1, 256) and c[1] == 2]
     fl = []
@@ -384,6 +433,7 @@ def run(ctx):
         for tup in itertools.product(SYMS, repeat=n):
             strings.append({"data": bytes(tup)})
     work += _chunks("bytes", strings, 5000)
+    work += _chunks("bytes_filter", [s_ for s_ in strings if len(s_["data"]) <= (4 if quick else 6)], 5000)
     ctx.bounds["byte_string_length"] = L
     ctx.bounds["byte_symbols"] = SYMS
 
